@@ -2,18 +2,20 @@ use super::{Numeric, UnitSet};
 use crate::css::Value;
 
 pub struct ValueRange {
-    from: i64,
-    to: i64,
-    step: i64,
+    // Wider than the i64 bounds, so `to + step` can't overflow.
+    from: i128,
+    to: i128,
+    step: i128,
     unit: UnitSet,
 }
 
 impl ValueRange {
     pub fn new(from: i64, to: i64, inclusive: bool, unit: UnitSet) -> Self {
         let step = if to >= from { 1 } else { -1 };
+        let to = i128::from(to);
         let to = if inclusive { to + step } else { to };
         Self {
-            from,
+            from: from.into(),
             to,
             step,
             unit,
@@ -25,7 +27,9 @@ impl Iterator for ValueRange {
     type Item = Value;
     fn next(&mut self) -> Option<Value> {
         if self.from.partial_cmp(&self.to) == 0.partial_cmp(&self.step) {
-            let result = Numeric::new(self.from, self.unit.clone()).into();
+            // from is always between the original i64 bounds here.
+            let result =
+                Numeric::new(self.from as i64, self.unit.clone()).into();
             self.from += self.step;
             Some(result)
         } else {
